@@ -14,6 +14,7 @@ var parts = map[string]func(*vk.Ctx){}
 var harnesses = map[string]func(*vsched.H){
 	"MergeOKCount":         harness.MergeOKCount,
 	"MergeReq":             harness.MergeReq,
+	"MergeReqTwoSessions":  harness.MergeReqTwoSessions,
 	"RouterScenario":       harness.RouterScenario,
 	"SessionEnd":           harness.SessionEnd,
 	"StorageSeq":           harness.StorageSeq,
